@@ -22,7 +22,7 @@ fn opens_and_verifies(bs: &[u8]) -> bool {
 }
 
 fn mutation<const N: usize>() {
-    let orig: [u8; N] = kani::any();
+    let orig: [u8; N] = crate::util::sym_bytes::<N>();
     kani::assume(opens_and_verifies(&orig));
     let pos: usize = kani::any();
     kani::assume(pos < N);
